@@ -245,6 +245,22 @@ func checkWrappedMode(r *ev.Run, nt named, shapes []ref.Shape3, pts []model3d.Co
 		for _, pt := range parts(t, nested) {
 			tc = model3d.TransformCollider(pt.(model3d.DistTransform), tc)
 		}
+		// the wrappers' own bounds are those of the image: they enclose the image of every corner and face centre of
+		// the original's box, and (these maps being similarities or axis scalings) are not larger than the image of
+		// that box turned into a box, which is what ApplyBounds returns
+		{
+			omn, omx := coll.Min(), coll.Max()
+			wmn, wmx := t.ApplyBounds(omn, omx)
+			for _, w := range []struct {
+				what     string
+				min, max model3d.Coord3D
+			}{{"TransformSDF", tsdf.Min(), tsdf.Max()}, {"TransformCollider", tc.Min(), tc.Max()}} {
+				slack := 1e-9 * (1 + wmx.Dist(wmn))
+				if w.min.Dist(wmn) > slack || w.max.Dist(wmx) > slack {
+					r.Violation(w.what+"/bounds/"+fam(nt.name), fmt.Sprintf("%s of %s: bounds %v..%v, the transform's bounds mapping of the original's box gives %v..%v", nt.name, s.Name, w.min, w.max, wmn, wmx), c)
+				}
+			}
+		}
 		t0 := t.Apply(model3d.Coord3D{})
 		checked := 0
 		for oi := 0; oi < len(pts); oi += 5 {
